@@ -1,5 +1,6 @@
 /- driver for the `ptseal` engine (C18): one export + request history per line -/
 import Fbr.Proto
-open Fbr Fbr.Proto
+import Fbr.PtSealShow
+open Fbr Fbr.Proto Fbr.PtSealShow
 
-def main : IO Unit := do loop (← IO.getStdin) (fun _ => "stub")
+def main : IO Unit := do loop (← IO.getStdin) runLine
